@@ -266,7 +266,9 @@ def jobs(tier):
                 J.append(dict(harness=('c02', 'h_undo'), params=dict(N=N, mask=m, L=1)))
         for kind in ('poly', 'map', 'state'):
             for m in mks:
-                if kind != 'poly' and m is not None and not (sum(m) == 1 or N <= 2):
+                if kind == 'map' and m is not None and not (sum(m) == 1 or N <= 2):
+                    continue
+                if kind == 'state' and m is not None and not (sum(m) <= 2 or N <= 2):
                     continue
                 J.append(dict(harness=('c02', 'h_rotate_list'), params=dict(N=N, mask=m, L=(2 * N if kind == 'map' else 2), kind=kind)))
         J.append(dict(harness=('c02', 'h_rotation_map'), params=dict(N=N)))
